@@ -219,14 +219,85 @@ def run(rep: Report, ctx: Any) -> str:
         rep.check(ok, "R02.1", f"model.py.jinja::domain[{txt}]@{_macro_of(mt, f)}",
                   "a loop over the model's properties iterates another domain than required + optional (a property would be written but "
                   "not read, or the reverse)", where=f"{PKG}/templates/model.py.jinja:{f.lineno}", lhs=txt, rhs=dom)
-    # python side: python_name everywhere
-    # python side: python_name everywhere: in a loop over the whole domain a keyword argument `<python_name>=<python_name>` is printed
     top = _region_frags(mt, mt.tree.body)
-    kw = [a for a, eq, b_ in zip(top, top[1:], top[2:]) if a.kind == "expr" and b_.kind == "expr" and eq.kind == "data" and eq.text.strip() == "="
-          and a.via is b_.via and a.loops and loop_dom.get(a.loops[-1]) == {True, False}
-          and strip_pv(a.text) == strip_pv(b_.text) == "<p>.python_name"]
-    rep.check(len(kw) >= 1, "R02.1", "model.py.jinja::constructor-keywords", "cls(...) is not called with python_name=python_name for every property",
-              where=f"{PKG}/templates/model.py.jinja", lhs=len(kw), rhs="<property.python_name>=<property.python_name> for every property")
+
+    # ---- R02.10: what from_dict decoded is what the object gets --------------------------------------------------------------------
+    rep.rule("R02.10", "the decoded value reaches the object unchanged: inside the argument list of cls(...), under every condition of the "
+                       "template, a property's keyword is python_name=python_name and nothing else (no default, no fallback in place of "
+                       "UNSET: the object must remember that the key was absent); in the loop that pops the keys, the property's local is "
+                       "assigned from the pop and from nothing else")
+    # the argument list: from the text `cls(` to the parenthesis that closes it, in output order
+    inside: set[int] = set()      # template lines of the pieces printed inside it
+    depth = 0
+    for fr in top:
+        if fr.kind == "expr":
+            if depth:
+                inside.add(fr.line)
+            continue
+        t = fr.text
+        k = 0
+        while k < len(t):
+            if not depth:
+                m = re.compile(r"\bcls\(").search(t, k)
+                if m is None:
+                    break
+                depth, k = 1, m.end()
+                continue
+            depth += (t[k] in "([{") - (t[k] in ")]}")
+            k += 1
+        if depth:
+            inside.add(fr.line)
+    n_ctor = 0
+    ctor_dom: set[bool] = set()
+    for f, lv in prop_loops:
+        # (the printed call of a macro of this template is followed by what the macro prints: the call itself is no piece of text)
+        body = [fr for fr in _region_frags(mt, [f]) if fr.kind == "data" or _bound_body(mt, _unfiltered(fr.node)) is None]
+        if not any(fr.kind == "expr" and fr.line in inside for fr in body):
+            continue
+        n_ctor += 1
+        ctor_dom |= loop_dom[expr_text(f.iter)]
+        names: list[str] = []
+        for fr in body:
+            for a in tplq.guard_atoms(fr):
+                if natom(a) not in names:
+                    names.append(natom(a))
+        bad = None
+        for env in tplq.assignments(names):
+            printed = "".join((fr.text if fr.kind == "data" else "{{" + natom(fr.text) + "}}") for fr in body
+                              if tplq.guard_holds(fr, {a: env[natom(a)] for a in tplq.guard_atoms(fr)}))
+            if not re.fullmatch(r"\{\{<p>\.python_name\}\}=\{\{<p>\.python_name\}\},?", "".join(printed.split())):
+                bad = (env, " ".join(printed.split()))
+                break
+        rep.check(bad is None, "R02.10", f"model.py.jinja::from_dict::constructor-receives-decoded[{expr_text(_inline(f.iter, mdefs))}]",
+                  f"cls(...) does not receive the decoded value itself for every property: when {bad[0] if bad else None} the template prints "
+                  f"`{bad[1] if bad else None}`; a value substituted for UNSET is written by to_dict, so decode -> encode adds a key the instance "
+                  "did not have", where=f"{PKG}/templates/model.py.jinja:{f.lineno}", lhs=bad[1] if bad else None,
+                  rhs="{{<p>.python_name}}={{<p>.python_name}}, under every condition")
+    rep.floor("constructor_keyword_loops", n_ctor, 1)
+    # python side: python_name everywhere - the loops inside cls(...) (each prints python_name=python_name, above) take in every property
+    rep.check(ctor_dom == {True, False}, "R02.1", "model.py.jinja::constructor-keywords", "cls(...) is not called with python_name=python_name for every property",
+              where=f"{PKG}/templates/model.py.jinja", lhs=sorted(ctor_dom), rhs="<property.python_name>=<property.python_name> for every property")
+    # where from_dict pops: `<local> = ...` is only ever `<local> = <the pop>` (the conversions live in the kinds' construct macros)
+    reader_vias = {id(fr.via) for fr in readers}
+    for f, lv in prop_loops:
+        body = _region_frags(mt, [f])
+        if not any(id(fr.via) in reader_vias for fr in _stmt_frags([f], (nodes.Assign, nodes.AssignBlock, nodes.Output), ti=mt)):
+            continue
+        for i, a in enumerate(body[:-1]):
+            eq = body[i + 1]
+            m = re.match(r"\s*(:[^=\n]+)?=(?!=)\s*", eq.text) if a.kind == "expr" and eq.kind == "data" and natom(a.text) == "<p>.python_name" else None
+            if m is None or (i and body[i - 1].kind == "data" and re.search(r"[\w.\])]$", body[i - 1].text)):
+                continue       # (not the beginning of an assignment to the local)
+            rest = eq.text[m.end():]
+            if rest.strip():
+                vals = [rest]
+            else:
+                nxt = body[i + 2] if i + 2 < len(body) else None
+                vals = ["".join(p_ if isinstance(p_, str) else "{{" + p_[1] + "}}" for p_ in alt.parts) for alt in texts.expr(nxt.node)] if nxt is not None and nxt.kind == "expr" else [""]
+            ok = all(v.lstrip().startswith("d.pop(") for v in vals)
+            rep.check(ok, "R02.10", "model.py.jinja::from_dict::local-bound-from-pop", "in from_dict a property's local is assigned from something else "
+                      "than the pop of its key: the value that reaches cls(...) is not the decoded one", where=f"{PKG}/templates/model.py.jinja:{a.line}",
+                      lhs=[v[:60] for v in vals], rhs="d.pop(\"<property.name>\"...)")
 
     # ---- R02.2 / R02.3 ----------------------------------------------------------------------------------------------------
     n_k = 0
